@@ -551,6 +551,293 @@ theorem cache_transparent_full {cfg : Cfg} {P : Params α} {rank : Key → Nat}
   cases h1
   exact cache_transparent hden rank h.acyclic h.nw h.cs store hsound h2 choices s' hrun req hreq
 
+/-! ## CacheProfiler -/
+
+/-- invariant of the fold: the live table has distinct keys, every live / reported time is ≤ the current time, reported
+entries have cache_time ≤ free_time, and live ∪ reported keys are the `posttask` keys seen so far, each once -/
+structure CInv (p : CProf) (T : Nat) (seen : List Key) : Prop where
+  liveNodup : (p.live.map (·.1)).Nodup
+  liveLe : ∀ x ∈ p.live, x.2 ≤ T
+  resLe : ∀ e ∈ p.results, e.2.1 ≤ e.2.2 ∧ e.2.2 ≤ T
+  disj : ∀ k, k ∈ p.live.map (·.1) → k ∉ p.results.map (·.1)
+  resNodup : (p.results.map (·.1)).Nodup
+  cover : ∀ k, k ∈ seen ↔ (k ∈ p.live.map (·.1) ∨ k ∈ p.results.map (·.1))
+
+
+theorem mem_set {β : Type} (m : Map β) (k : Key) (v : β) (x : Key × β) :
+    x ∈ m.set k v ↔ x = (k, v) ∨ (x ∈ m ∧ x.1 ≠ k) := by
+  unfold Map.set Map.del
+  simp only [List.mem_cons, List.mem_filter, bne_iff_ne, ne_eq]
+
+theorem cinv_mono {p : CProf} {T T' : Nat} {seen : List Key} (h : CInv p T seen) (hT : T ≤ T') : CInv p T' seen :=
+  ⟨h.liveNodup, fun x hx => Nat.le_trans (h.liveLe x hx) hT,
+   fun e he => ⟨(h.resLe e he).1, Nat.le_trans (h.resLe e he).2 hT⟩, h.disj, h.resNodup, h.cover⟩
+
+/-- one `_posttask` of a key that had none before -/
+theorem cinv_posttask {p : CProf} {T t : Nat} {seen : List Key} (h : CInv p T seen) (hT : T ≤ t)
+    (k : Key) (hk : k ∉ seen) (rel : List Key) :
+    CInv (cprofStep p (.posttask k) rel t) t (k :: seen) ∧
+    (∀ e ∈ (cprofStep p (.posttask k) rel t).results, e ∈ p.results ∨ (e.1 ∈ rel ∧ e.2.2 = t)) ∧
+    (∀ x ∈ (cprofStep p (.posttask k) rel t).live, x.1 ∉ rel) := by
+  have hkl : k ∉ p.live.map (·.1) := fun hc => hk ((h.cover k).mpr (Or.inl hc))
+  have hkr : k ∉ p.results.map (·.1) := fun hc => hk ((h.cover k).mpr (Or.inr hc))
+  have hsetN : ((p.live.set k t).map (·.1)).Nodup := keysNodup_set p.live k t h.liveNodup
+  have hsetLe : ∀ x ∈ p.live.set k t, x.2 ≤ t := by
+    intro x hx
+    rcases (mem_set p.live k t x).mp hx with rfl | ⟨hx', _⟩
+    · exact Nat.le_refl _
+    · exact Nat.le_trans (h.liveLe x hx') hT
+  have hsetKeys : ∀ j, j ∈ (p.live.set k t).map (·.1) ↔ j = k ∨ j ∈ p.live.map (·.1) := by
+    intro j
+    simp only [List.mem_map]
+    constructor
+    · rintro ⟨x, hx, rfl⟩
+      rcases (mem_set p.live k t x).mp hx with rfl | ⟨hx', _⟩
+      · exact Or.inl rfl
+      · exact Or.inr ⟨x, hx', rfl⟩
+    · rintro (rfl | ⟨x, hx, rfl⟩)
+      · exact ⟨(j, t), (mem_set p.live j t _).mpr (Or.inl rfl), rfl⟩
+      · by_cases hxk : x.1 = k
+        · exact ⟨(k, t), (mem_set p.live k t _).mpr (Or.inl rfl), hxk.symm⟩
+        · exact ⟨x, (mem_set p.live k t x).mpr (Or.inr ⟨hx, hxk⟩), rfl⟩
+  have hnotres : ∀ j, j ∈ (p.live.set k t).map (·.1) → j ∉ p.results.map (·.1) := by
+    intro j hj
+    rcases (hsetKeys j).mp hj with rfl | hj'
+    · exact hkr
+    · exact h.disj j hj'
+  have hlive : (cprofStep p (.posttask k) rel t).live = (p.live.set k t).filter (fun x => !(rel.contains x.1)) := rfl
+  refine ⟨⟨?_, ?_, ?_, ?_, ?_, ?_⟩, ?_, ?_⟩
+  · -- liveNodup
+    rw [hlive]
+    exact (List.Sublist.map _ List.filter_sublist).nodup hsetN
+  · intro x hx
+    exact hsetLe x (List.mem_filter.mp hx).1
+  · intro e he
+    have he' : e ∈ p.results ++ ((p.live.set k t).filter (fun x => rel.contains x.1)).map (fun x => (x.1, x.2, t)) := he
+    rcases List.mem_append.mp he' with h1 | h1
+    · exact ⟨(h.resLe e h1).1, Nat.le_trans (h.resLe e h1).2 hT⟩
+    · obtain ⟨x, hx, rfl⟩ := List.mem_map.mp h1
+      exact ⟨hsetLe x (List.mem_filter.mp hx).1, Nat.le_refl _⟩
+  · -- disj
+    intro j hj hjr
+    have hj' : j ∈ ((p.live.set k t).filter (fun x => !(rel.contains x.1))).map (·.1) := hj
+    obtain ⟨x, hx, rfl⟩ := List.mem_map.mp hj'
+    obtain ⟨hxm, hxr⟩ := List.mem_filter.mp hx
+    have hjr' : x.1 ∈ (p.results ++ ((p.live.set k t).filter (fun x => rel.contains x.1)).map (fun x => (x.1, x.2, t))).map (·.1) := hjr
+    rw [List.map_append, List.mem_append] at hjr'
+    rcases hjr' with h1 | h1
+    · exact hnotres x.1 (List.mem_map.mpr ⟨x, hxm, rfl⟩) h1
+    · simp only [List.map_map, List.mem_map, List.mem_filter, Function.comp_def] at h1
+      obtain ⟨y, ⟨hym, hyr⟩, hy⟩ := h1
+      -- same key, distinct keys in the table: y = x, but one is released and the other is not
+      have hyx : y = x := by
+        have hmy := (mem_iff_get (p.live.set k t) hsetN y.1 y.2).mp hym
+        have hmx := (mem_iff_get (p.live.set k t) hsetN x.1 x.2).mp hxm
+        rw [hy] at hmy
+        rw [hmx] at hmy
+        cases y; cases x
+        simp only [Option.some.injEq] at hmy
+        simp only at hy
+        subst hy; subst hmy; rfl
+      subst hyx
+      rw [hyr] at hxr
+      cases hxr
+  · -- resNodup
+    show ((p.results ++ ((p.live.set k t).filter (fun x => rel.contains x.1)).map (fun x => (x.1, x.2, t))).map (·.1)).Nodup
+    rw [List.map_append]
+    refine List.nodup_append.mpr ⟨h.resNodup, ?_, ?_⟩
+    · simp only [List.map_map, Function.comp_def]
+      exact (List.Sublist.map _ List.filter_sublist).nodup hsetN
+    · intro a ha b hb hab
+      subst hab
+      simp only [List.map_map, List.mem_map, List.mem_filter, Function.comp_def] at hb
+      obtain ⟨y, ⟨hym, _⟩, rfl⟩ := hb
+      exact hnotres y.1 (List.mem_map.mpr ⟨y, hym, rfl⟩) ha
+  · -- cover
+    intro j
+    show j ∈ k :: seen ↔ (j ∈ ((p.live.set k t).filter (fun x => !(rel.contains x.1))).map (·.1) ∨
+      j ∈ (p.results ++ ((p.live.set k t).filter (fun x => rel.contains x.1)).map (fun x => (x.1, x.2, t))).map (·.1))
+    rw [List.map_append, List.mem_append]
+    simp only [List.map_map, Function.comp_def, List.mem_cons]
+    constructor
+    · intro hj
+      have hin : j ∈ (p.live.set k t).map (·.1) ∨ j ∈ p.results.map (·.1) := by
+        rcases hj with rfl | hj
+        · exact Or.inl ((hsetKeys j).mpr (Or.inl rfl))
+        · rcases (h.cover j).mp hj with h1 | h1
+          · exact Or.inl ((hsetKeys j).mpr (Or.inr h1))
+          · exact Or.inr h1
+      rcases hin with h1 | h1
+      · obtain ⟨x, hx, rfl⟩ := List.mem_map.mp h1
+        by_cases hr : rel.contains x.1 = true
+        · exact Or.inr (Or.inr (List.mem_map.mpr ⟨x, List.mem_filter.mpr ⟨hx, hr⟩, rfl⟩))
+        · rw [Bool.not_eq_true] at hr
+          exact Or.inl (List.mem_map.mpr ⟨x, List.mem_filter.mpr ⟨hx, by rw [hr]; rfl⟩, rfl⟩)
+      · exact Or.inr (Or.inl h1)
+    · intro hj
+      have hin : j ∈ (p.live.set k t).map (·.1) ∨ j ∈ p.results.map (·.1) := by
+        rcases hj with h1 | h1 | h1
+        · obtain ⟨x, hx, rfl⟩ := List.mem_map.mp h1
+          exact Or.inl (List.mem_map.mpr ⟨x, (List.mem_filter.mp hx).1, rfl⟩)
+        · exact Or.inr h1
+        · obtain ⟨x, hx, rfl⟩ := List.mem_map.mp h1
+          exact Or.inl (List.mem_map.mpr ⟨x, (List.mem_filter.mp hx).1, rfl⟩)
+      rcases hin with h1 | h1
+      · rcases (hsetKeys j).mp h1 with rfl | h2
+        · exact Or.inl rfl
+        · exact Or.inr ((h.cover j).mpr (Or.inl h2))
+      · exact Or.inr ((h.cover j).mpr (Or.inr h1))
+  · intro e he
+    have he' : e ∈ p.results ++ ((p.live.set k t).filter (fun x => rel.contains x.1)).map (fun x => (x.1, x.2, t)) := he
+    rcases List.mem_append.mp he' with h1 | h1
+    · exact Or.inl h1
+    · obtain ⟨x, hx, rfl⟩ := List.mem_map.mp h1
+      have := (List.mem_filter.mp hx).2
+      exact Or.inr ⟨by simpa using this, rfl⟩
+  · intro x hx
+    have hx' : x ∈ (p.live.set k t).filter (fun x => !(rel.contains x.1)) := hx
+    have := (List.mem_filter.mp hx').2
+    simpa using this
+
+theorem cprofRun_append (clock : Nat → Nat) : ∀ (l1 l2 : List (Ev × State α)) (i : Nat) (p : CProf),
+    cprofRun clock i p (l1 ++ l2) = cprofRun clock (i + l1.length) (cprofRun clock i p l1) l2 := by
+  intro l1
+  induction l1 with
+  | nil => intro l2 i p; simp [cprofRun]
+  | cons e rest ih =>
+    intro l2 i p
+    simp only [List.cons_append, cprofRun, List.length_cons]
+    rw [ih l2 (i + 1)]
+    rw [show i + 1 + rest.length = i + (rest.length + 1) by omega]
+
+theorem cprofRun_spec (clock : Nat → Nat) (hmono : ∀ i j, i ≤ j → clock i ≤ clock j) :
+    ∀ (log : List (Ev × State α)) (i : Nat) (p : CProf) (seen : List Key),
+    CInv p (clock i) seen → (postKeys log).Nodup → (∀ k ∈ postKeys log, k ∉ seen) →
+    (∀ e ∈ log, ∀ b, e.1 ≠ Ev.finish b) →
+    ∃ seen', CInv (cprofRun clock i p log) (clock (i + log.length)) seen' ∧
+      (∀ k, k ∈ seen' ↔ k ∈ seen ∨ k ∈ postKeys log) := by
+  intro log
+  induction log with
+  | nil =>
+    intro i p seen h _ _ _
+    exact ⟨seen, by simpa [cprofRun] using h, by simp [postKeys]⟩
+  | cons e rest ih =>
+    intro i p seen h hqn hq hnf
+    have hnf' : ∀ e' ∈ rest, ∀ b, e'.1 ≠ Ev.finish b := fun e' he' => hnf e' (List.mem_cons_of_mem _ he')
+    have hclk : clock i ≤ clock (i + 1) := hmono i (i + 1) (by omega)
+    have hlen : i + (e :: rest).length = (i + 1) + rest.length := by simp only [List.length_cons]; omega
+    obtain ⟨ev, snap⟩ := e
+    have hother : (∀ k, ev ≠ Ev.posttask k) → (∀ b, ev ≠ Ev.finish b) →
+        cprofStep p ev snap.released (clock i) = p ∧ postKeys ((ev, snap) :: rest) = postKeys rest := by
+      intro h1 h2
+      cases ev with
+      | posttask k => exact absurd rfl (h1 k)
+      | finish b => exact absurd rfl (h2 b)
+      | start => exact ⟨rfl, by simp [postKeys]⟩
+      | startState => exact ⟨rfl, by simp [postKeys]⟩
+      | pretask k => exact ⟨rfl, by simp [postKeys]⟩
+      | submit ks => exact ⟨rfl, by simp [postKeys]⟩
+    by_cases hpost : ∃ k, ev = Ev.posttask k
+    · obtain ⟨k, rfl⟩ := hpost
+      have hqk : postKeys ((Ev.posttask k, snap) :: rest) = k :: postKeys rest := by simp [postKeys]
+      rw [hqk] at hqn hq
+      have hqn' := List.nodup_cons.mp hqn
+      have hk : k ∉ seen := hq k (by simp)
+      obtain ⟨hinv, _, _⟩ := cinv_posttask (cinv_mono h (Nat.le_refl _)) (Nat.le_refl (clock i)) k hk snap.released
+      obtain ⟨seen', hs1, hs2⟩ := ih (i + 1) _ (k :: seen) (cinv_mono hinv hclk) hqn'.2
+        (by intro k' hk' hc
+            rcases List.mem_cons.mp hc with rfl | hc
+            · exact hqn'.1 hk'
+            · exact hq k' (List.mem_cons_of_mem _ hk') hc)
+        hnf'
+      refine ⟨seen', by rw [hlen]; exact hs1, ?_⟩
+      intro k'
+      rw [hs2 k', hqk]
+      simp only [List.mem_cons]
+      constructor
+      · rintro ((rfl | h1) | h1)
+        · exact Or.inr (Or.inl rfl)
+        · exact Or.inl h1
+        · exact Or.inr (Or.inr h1)
+      · rintro (h1 | rfl | h1)
+        · exact Or.inl (Or.inr h1)
+        · exact Or.inl (Or.inl rfl)
+        · exact Or.inr h1
+    · have hnp : ∀ k, ev ≠ Ev.posttask k := fun k hk => hpost ⟨k, hk⟩
+      have hnfin : ∀ b, ev ≠ Ev.finish b := fun b => hnf (ev, snap) (by simp) b
+      obtain ⟨hstep, hqk⟩ := hother hnp hnfin
+      rw [hqk] at hqn hq
+      obtain ⟨seen', hs1, hs2⟩ := ih (i + 1) p seen (cinv_mono h hclk) hqn hq hnf'
+      refine ⟨seen', ?_, fun k' => by rw [hs2 k', hqk]⟩
+      rw [hlen]
+      show CInv (cprofRun clock (i + 1) (cprofStep p ev snap.released (clock i)) rest) _ seen'
+      rw [hstep]
+      exact hs1
+
+/-- **`cache_profiler_one_entry_per_completed_task`**: over the events of one scheduler call (`posttask`s distinct, then
+`finish`), with any non-decreasing clock and a cleared `CacheProfiler`, `results` gets exactly one entry per key that
+completed - none for tasks that started but failed - each with cache_time ≤ free_time, and nothing stays in `_cache`;
+whatever the `released` sets the scheduler shows to the callback are. -/
+theorem cache_profiler_one_entry_per_completed_task (clock : Nat → Nat) (hmono : ∀ i j, i ≤ j → clock i ≤ clock j)
+    (log : List (Ev × State α)) (b : Bool) (st : State α) (hqn : (postKeys log).Nodup)
+    (hnf : ∀ e ∈ log, ∀ b, e.1 ≠ Ev.finish b) :
+    (cprofRun clock 0 {} (log ++ [(Ev.finish b, st)])).live = [] ∧
+    ((cprofRun clock 0 {} (log ++ [(Ev.finish b, st)])).results.map (·.1)).Nodup ∧
+    (∀ k, k ∈ (cprofRun clock 0 {} (log ++ [(Ev.finish b, st)])).results.map (·.1) ↔ k ∈ postKeys log) ∧
+    ∀ e ∈ (cprofRun clock 0 {} (log ++ [(Ev.finish b, st)])).results, e.2.1 ≤ e.2.2 := by
+  have h0 : CInv ({} : CProf) (clock 0) [] :=
+    ⟨(by simp), (fun x hx => by cases hx), (fun e he => by cases he), (fun k hk => by cases hk), (by simp), (fun k => by simp)⟩
+  obtain ⟨seen', hinv, hseen⟩ := cprofRun_spec clock hmono log 0 {} [] h0 hqn (by intro k _ hc; cases hc) hnf
+  rw [cprofRun_append]
+  generalize hp : cprofRun clock 0 {} log = p at hinv
+  simp only [cprofRun, cprofStep]
+  have hT : clock (0 + log.length) ≤ clock (0 + log.length) := Nat.le_refl _
+  refine ⟨by first | rfl | trivial, ?_, ?_, ?_⟩
+  · rw [List.map_append]
+    refine List.nodup_append.mpr ⟨hinv.resNodup, ?_, ?_⟩
+    · simp only [List.map_map, Function.comp_def]; exact hinv.liveNodup
+    · intro a ha c hc hac
+      subst hac
+      simp only [List.map_map, Function.comp_def] at hc
+      exact hinv.disj a hc ha
+  · intro k
+    rw [List.map_append, List.mem_append]
+    simp only [List.map_map, Function.comp_def]
+    rw [← (show k ∈ seen' ↔ k ∈ postKeys log by rw [hseen k]; simp)]
+    rw [hinv.cover k]
+    exact Or.comm
+  · intro e he
+    rcases List.mem_append.mp he with h1 | h1
+    · exact (hinv.resLe e h1).1
+    · obtain ⟨x, hx, rfl⟩ := List.mem_map.mp h1
+      exact hinv.liveLe x hx
+
+/-- an entry is closed (gets its `free_time`) at a `posttask` exactly for the keys the scheduler shows as released, the
+others stay in `_cache` -/
+theorem cache_profiler_closes_on_release (p : CProf) (T t : Nat) (seen : List Key) (h : CInv p T seen) (hT : T ≤ t)
+    (k : Key) (hk : k ∉ seen) (rel : List Key) :
+    (∀ e ∈ (cprofStep p (.posttask k) rel t).results, e ∈ p.results ∨ (e.1 ∈ rel ∧ e.2.2 = t)) ∧
+    (∀ x ∈ (cprofStep p (.posttask k) rel t).live, x.1 ∉ rel) :=
+  (cinv_posttask h hT k hk rel).2
+
+/-- for the log of the scheduler model, every graph and completion order: the entries are exactly the finished tasks -/
+theorem cache_profiler_faithful {cfg : Cfg} {P : Params α} {rank : Key → Nat} {st0 : State α}
+    (h : C01.Hyp cfg rank) (hG : GraphOK cfg.g cfg.results) (hst : startState cfg P = .ok st0)
+    (choices : List Nat) (s' : Sys α) (o : Outcome) (hrun : mainLoop cfg P choices (sys0 st0) = .ok (s', o))
+    (clock : Nat → Nat) (hmono : ∀ i j, i ≤ j → clock i ≤ clock j) (b : Bool) :
+    ((cprofRun clock 0 {} (s'.log ++ [(Ev.finish b, s'.st)])).results.map (·.1)).Nodup ∧
+    (∀ k, k ∈ (cprofRun clock 0 {} (s'.log ++ [(Ev.finish b, s'.st)])).results.map (·.1) ↔ k ∈ s'.st.finished) ∧
+    ∀ e ∈ (cprofRun clock 0 {} (s'.log ++ [(Ev.finish b, s'.st)])).results, e.2.1 ≤ e.2.2 := by
+  obtain ⟨⟨rest, hB⟩, _⟩ := reach_inv P (C01.den_fixpoint cfg P rank h) h.nw h.cs rank h.acyclic
+    (C01.startOK_of_eq h hG hst) hrun
+  obtain ⟨_, h2, h3, h4⟩ := cache_profiler_one_entry_per_completed_task clock hmono s'.log b s'.st hB.postNodup hB.noFinish
+  exact ⟨h2, fun k => (h3 k).trans (hB.postIff k), h4⟩
+
+/-- non-vacuity: the CacheProfiler over the diamond run of C01 (clock `i ↦ 10 i`): 2 and 1 are freed when 3 completes -/
+example : (cprofRun (fun i => 10 * i) 0 {} (getAsync (C01.exCfg 1) C01.exP [1, 0, 0]).log).results
+    = [(1, 70, 100), (2, 60, 100), (3, 100, 110)] := by decide
+
+
 /-! non-vacuity: the profiler over the diamond run of C01 with the clock `i ↦ 10 * i` -/
 example : (profRun (fun i => 10 * i) 0 {} (getAsync (C01.exCfg 1) C01.exP [1, 0, 0]).log).toOption.map (·.results)
     = some [(3, 80, 100), (1, 20, 70), (2, 30, 60)] := by decide
